@@ -114,6 +114,7 @@ def run_job(job):
         agg = dict(paths=0, queries=0, solver_s=0.0, proved=0, failed=0, unknown=0, infeasible=0, reach=0,
                    unwind_fail=0, x_agree=0, x_disagree=0, **{"x_no-opinion": 0}, x_solver_s=0.0)
         xc_left = [int(opts.get("cross_check_max", 60))]
+        n_vacuous = 0
         for ci, case in enumerate(caselist):
             c = Context(name=name, timeout_ms=opts.get("timeout_ms", 20000),
                         max_paths=opts.get("max_paths", 20000), unwind=opts.get("unwind", 64),
@@ -147,8 +148,15 @@ def run_job(job):
                                              what=info.get("what", f["label"]), replay=jsonable(rp),
                                              model=str(f["model"])[:600], job=name))
             if c.stats["paths"] == 0:
-                res.status = "inconclusive"
-                res.reason = "no feasible path (vacuous harness) in case %r" % (case,)
+                if getattr(c, "vacuous_ok", False):
+                    n_vacuous += 1          # the harness declared that this case's domain may legitimately be empty
+                else:
+                    res.status = "inconclusive"
+                    res.reason = "no feasible path (vacuous harness) in case %r" % (case,)
+        agg["vacuous_cases"] = n_vacuous
+        if n_vacuous and n_vacuous == len(caselist):
+            res.status = "inconclusive"
+            res.reason = "every case of this job has an empty domain (vacuous)"
         res.stats = agg
         res.encoded = dict(interp.encoded)
         if res.failures:
